@@ -226,7 +226,11 @@ class FunTx:
             if name in SIMPLE_BUILTINS:
                 if n.keywords:
                     raise Untranslatable(f"keywords to {name}")
-                return f"(EBuiltin {SIMPLE_BUILTINS[name]} {cexprs([self.e(a) for a in n.args])})"
+                cargs = n.args
+                if (name in ("min", "max") and len(cargs) == 1 and isinstance(cargs[0], ast.List) and len(cargs[0].elts) >= 2
+                        and not any(isinstance(x, ast.Starred) for x in cargs[0].elts)):
+                    cargs = cargs[0].elts        # min([a, b]) is min(a, b): same value, same first-extremal rule
+                return f"(EBuiltin {SIMPLE_BUILTINS[name]} {cexprs([self.e(a) for a in cargs])})"
             if name == "isinstance":
                 if len(n.args) == 2 and ast.unparse(n.args[1]) == "int":
                     return f"(EBuiltin BIsInt {cexprs([self.e(n.args[0])])})"
@@ -719,6 +723,7 @@ def source_hash() -> str:
             h.update(str(p.relative_to(SRC)).encode())
             h.update(p.read_bytes())
     h.update(Path(__file__).read_bytes())
+    h.update((Path(__file__).parent / "dagdump.py").read_bytes())
     return h.hexdigest()
 
 
